@@ -65,34 +65,25 @@ PROPERTIES = {
              "bounds": "3 waiters, 3 poll slots each taken by any waiter or skipped; first slot = waiter 0 by symmetry (16 schedules, path-split)"},
             {"group": "supervisor", "name": "c07_flag_all_waiters_woken_full", "tiers": ("thorough",), "covers": ["three waiters pending"],
              "bounds": "as above without the symmetry argument (64 schedules)", "timeout": {"thorough": 3000}},
-            {"group": "supervisor", "name": "c07_ticket_clone_first_control_done", "covers": ["two clones pending", "two different tickets pending"], "bounds": "3 waiters (2 clones + 1 other ticket of the job), 3 poll slots, first = a clone; the control's own flag is raised"},
-            {"group": "supervisor", "name": "c07_ticket_clone_first_job_gone", "covers": ["two clones pending", "two different tickets pending"], "bounds": "same; the job-gone flag is raised"},
-            {"group": "supervisor", "name": "c07_ticket_other_first_control_done", "covers": ["two clones pending", "two different tickets pending"], "bounds": "same, first = the other ticket; control flag raised"},
-            {"group": "supervisor", "name": "c07_ticket_other_first_job_gone", "covers": ["two clones pending", "two different tickets pending"], "bounds": "same, first = the other ticket; job-gone flag raised"},
-        ],
-    },
-    "C10": {
-        "bounds": "queue contents (n_normal, n_high, n_urgent) in [0,2]^3, timer in {none, armed-future, armed-past} x {stop, restart}, every select! start index",
-        "outside": "several sender threads; queues longer than 2 per priority",
-        "trusted": ["Kani 0.68 / CBMC 6.11 / CaDiCaL", "models/tokio (mpsc ring, select! = tokio's macro text with symbolic start index, virtual time)"],
-        "assumptions": [],
-        "harnesses": [
-            {"group": "supervisor", "name": "c10_recv_priority_order", "covers": ["timer already past", "armed timer holds back normal", "normal fifo"], "bounds": "one recv from arbitrary queues/timer"},
-            {"group": "supervisor", "name": "c10_recv_drain_order", "covers": ["all queues full"], "bounds": "<= 6 messages sent in any interleaving, drained by <= 7 recv"},
+            {"group": "supervisor", "name": "c07_ticket_clone_first_control_done_a", "bounds": "3 waiters (2 clones + 1 other ticket of the job), 3 poll slots; first = a clone of the ticket; second slot: waiter 0 or 1; the control's own flag is raised (8 schedules, path-split)"},
+            {"group": "supervisor", "name": "c07_ticket_clone_first_control_done_b", "bounds": "3 waiters (2 clones + 1 other ticket of the job), 3 poll slots; first = a clone of the ticket; second slot: waiter 2 or skipped; the control's own flag is raised (8 schedules, path-split)"},
+            {"group": "supervisor", "name": "c07_ticket_clone_first_job_gone_a", "bounds": "3 waiters (2 clones + 1 other ticket of the job), 3 poll slots; first = a clone of the ticket; second slot: waiter 0 or 1; the job-gone flag is raised (8 schedules, path-split)"},
+            {"group": "supervisor", "name": "c07_ticket_clone_first_job_gone_b", "bounds": "3 waiters (2 clones + 1 other ticket of the job), 3 poll slots; first = a clone of the ticket; second slot: waiter 2 or skipped; the job-gone flag is raised (8 schedules, path-split)"},
+            {"group": "supervisor", "name": "c07_ticket_other_first_control_done_a", "bounds": "3 waiters (2 clones + 1 other ticket of the job), 3 poll slots; first = the other ticket of the job; second slot: waiter 0 or 1; the control's own flag is raised (8 schedules, path-split)"},
+            {"group": "supervisor", "name": "c07_ticket_other_first_control_done_b", "bounds": "3 waiters (2 clones + 1 other ticket of the job), 3 poll slots; first = the other ticket of the job; second slot: waiter 2 or skipped; the control's own flag is raised (8 schedules, path-split)"},
+            {"group": "supervisor", "name": "c07_ticket_other_first_job_gone_a", "bounds": "3 waiters (2 clones + 1 other ticket of the job), 3 poll slots; first = the other ticket of the job; second slot: waiter 0 or 1; the job-gone flag is raised (8 schedules, path-split)"},
+            {"group": "supervisor", "name": "c07_ticket_other_first_job_gone_b", "bounds": "3 waiters (2 clones + 1 other ticket of the job), 3 poll slots; first = the other ticket of the job; second slot: waiter 2 or skipped; the job-gone flag is raised (8 schedules, path-split)"},
         ],
     },
     "C18": {
-        "bounds": "Exec: program (1 byte) + 0..=3 args of 0..=2 bytes; Shell: 0..=2 options, optional program option, command (2 bytes), 0..=2 extra args (0..=2 bytes); every byte symbolic over ASCII 0x01..=0x7f (all shell metacharacters, whitespace, quotes, control characters); one concrete multi-byte argument; all 8 spawn-option combinations (symbolic). Counts/lengths are path-split, bytes and options solver-decided.",
-        "outside": "what tokio/std/the kernel do with the argv (exec fidelity, pgid/sid), strings longer than 2 bytes, NUL bytes, spawn-hook env/cwd visibility in a real child, CLI argument interpretation",
+        "bounds": "Program::Exec only: program (1 byte) + 0..=3 args of 0..=2 bytes; every byte symbolic over ASCII 0x01..=0x7f (all shell metacharacters, whitespace, quotes, control characters); one concrete multi-byte argument; all 8 spawn-option combinations (symbolic). Counts/lengths are path-split, bytes and options solver-decided.",
+        "outside": "the Program::Shell branch of to_spawnable (measured: one concrete shell scenario = 31M SAT variables / 142M clauses / 14 min, OOM at 3 scenarios; see DESIGN), what tokio/std/the kernel do with the argv (exec fidelity, pgid/sid), strings longer than 2 bytes, NUL bytes, spawn-hook env/cwd visibility in a real child, CLI argument interpretation",
         "trusted": ["Kani 0.68 / CBMC 6.11 / CaDiCaL", "models/tokio process::Command (records program/args verbatim)", "models/process-wrap (records wrapper kinds)"],
         "assumptions": ["tokio::process::Command::arg/args append one argv element per call/item (documented std behaviour)"],
         "harnesses": [
             {"group": "supervisor", "name": "c18_exec_argv_exact", "covers": ["three args, first empty", "argument ' *'"], "bounds": "0..=3 args x 2 length patterns x symbolic bytes x symbolic options"},
             {"group": "supervisor", "name": "c18_exec_argv_unicode", "bounds": "1..=3 args, first = multi-byte/space/quote string"},
-            {"group": "supervisor", "name": "c18_shell_argv_with_progopt", "covers": ["full shell form"], "bounds": "0..=2 options x 0..=2 args, program option present, symbolic bytes/options"},
-            {"group": "supervisor", "name": "c18_shell_argv_no_progopt", "covers": ["no program option"], "bounds": "0..=2 options x 0..=2 args, no program option"},
-            {"group": "supervisor", "name": "c18_exec_argv_exact_full", "tiers": ("thorough",), "bounds": "0..=3 args x all 27 length combinations", "timeout": {"thorough": 7200}},
-            {"group": "supervisor", "name": "c18_shell_argv_full", "tiers": ("thorough",), "bounds": "54 shapes", "timeout": {"thorough": 7200}},
+            {"group": "supervisor", "name": "c18_exec_argv_exact_full", "tiers": ("thorough",), "mem_gb": 30, "bounds": "0..=3 args x all 27 length combinations", "timeout": {"thorough": 7200}},
         ],
     },
 }
